@@ -67,11 +67,10 @@ def flight_tiling(rng, good):
 def builder_cases(c, thorough):
     rng = c.rng
     cases = []
-    draws = 20 if not thorough else 300
+    draws = 20 if not thorough else 100
     knobs = [s[0] for s in c.enumerate("TilingKnobs.tla", {}) if s]
-    if not thorough:
-        rng.shuffle(knobs)
-        knobs = knobs[:6000]
+    rng.shuffle(knobs)
+    knobs = knobs[:(6000 if not thorough else 12000)]   # of 24k; measured: ~15k trace lines/s through TLC
     for k in knobs:
         fb = {"kind": "random", **{x: k[x] for x in ("minping", "maxping", "mincrypto", "maxcrypto", "minpad", "maxpad", "length")}}
         cases.append({"group": "random", "cfg": {"tier": "builder", "n": k["n"], "base": k["base"], "dg": 0, "draws": draws, "fb": fb,
